@@ -1051,6 +1051,15 @@ class Channel(ClosingContextManager):
             self._log(
                 ERROR, "unknown extended_data type {}; discarding".format(code)
             )
+            # the peer charged these bytes against our receive window; count
+            # them as consumed so the window is handed back eventually
+            ack = self._check_add_window(len(s))
+            if ack > 0:
+                adjust = Message()
+                adjust.add_byte(cMSG_CHANNEL_WINDOW_ADJUST)
+                adjust.add_int(self.remote_chanid)
+                adjust.add_int(ack)
+                self.transport._send_user_message(adjust)
             return
         if self.combine_stderr:
             self._feed(s)
